@@ -640,6 +640,43 @@ def _(d):
     return [g, inl], run
 
 
+def _fd_ring():
+    """5x5 grid: everything flows east then south to cell 24, except the
+    centre cell 12 (a sink): the area of cell 24 rings around a hole."""
+    fd = np.ones((5, 5), dtype=np.int64)
+    fd[:, -1] = 4
+    fd[2, 0] = fd[2, 1] = 4
+    fd[2, 2] = 0
+    fd[-1, -1] = 0
+    g = Grid("fd", 5, 5, dtype=np.int64)
+    g.data = fd
+    return g
+
+
+@spec("grid.catchment_boundary_mask", "gis")
+def _(d):
+    """delineate_boundary with the caller's own area mask: built from the
+    area (the hole not flagged), from the filled area, or all ones."""
+    g = _fd_ring()
+    c0 = Catchment("c", g)
+    c0.delineate_area(24, nval=200)
+    kind = ("area", "filled", "ones")[int(abs(d.obs[0]) * 1000) % 3]
+    mask = np.zeros(25, dtype=np.int64)
+    if kind == "area":
+        mask[np.asarray(c0.idxcells_area)] = 1
+    elif kind == "filled":
+        mask[np.asarray(c0.idxcells_area_filled)] = 1
+    else:
+        mask[:] = 1
+
+    def run(g, mask):
+        c = Catchment("c", g)
+        c.delineate_area(24, nval=200)
+        c.delineate_boundary(catchment_area_mask=mask)
+        return [c.idxcells_boundary, c.idxcells_area]
+    return [g, mask], run
+
+
 def _fieldgaps(d, dtype=np.float64):
     """6x6 field with missing cells and low values (to be gap filled)"""
     g = Grid("z", 6, 6, dtype=dtype, nodata=-9999.)
